@@ -5,6 +5,7 @@ import (
 	"fmt"
 	"maps"
 	"regexp"
+	"sort"
 	"strconv"
 	"sync"
 
@@ -889,6 +890,16 @@ func (sd *SimDrive) Init(c *Config, s *simbox.Simbox, vm *VM) error {
 					if ipos == -1 {
 						ipos = len(inj)
 						inj = append(inj, loc)
+
+						re := regexp.MustCompile("^i(?P<input>[0-9]+)$")
+						if re.MatchString(rule.Object) {
+							inIdxS := re.ReplaceAllString(rule.Object, "${input}")
+							inIdx, err := strconv.Atoi(inIdxS)
+							if err != nil {
+								return err
+							}
+							needValid[ipos] = inIdx
+						}
 					}
 
 					if actOnTick, ok := perset[rule.Tick]; ok {
@@ -932,6 +943,27 @@ func (sd *SimDrive) Init(c *Config, s *simbox.Simbox, vm *VM) error {
 	sd.AbsSet = absset
 	sd.PerSet = perset
 	return nil
+}
+
+// PeriodicSet applies the periodic set rules ("relative:<period>:set:<object>:<value>") that are due at
+// the given tick, i.e. those whose period divides it, as the periodic show and get rules do. Periods are
+// visited in increasing order so that the outcome does not depend on map iteration.
+func (sd *SimDrive) PeriodicSet(vm *VM, tick uint64) {
+	periods := make([]uint64, 0, len(sd.PerSet))
+	for p := range sd.PerSet {
+		if p != 0 && tick%p == 0 {
+			periods = append(periods, p)
+		}
+	}
+	sort.Slice(periods, func(a, b int) bool { return periods[a] < periods[b] })
+	for _, p := range periods {
+		for k, val := range sd.PerSet[p] {
+			*sd.Injectables[k] = val
+			if inIdx, ok := sd.NeedValid[k]; ok {
+				vm.InputsValid[inIdx] = true
+			}
+		}
+	}
 }
 
 func (sd *SimReport) Init(s *simbox.Simbox, vm *VM) error {
